@@ -20,7 +20,7 @@
 From Coq Require Import List ZArith Bool String.
 From ApiFu Require Val.Values Val.CoerceModel Val.CoerceSpec Val.CoerceCheck.
 From ApiFu Require Import Base.Sexp Cost.CostModel Cost.CostSpec Cost.CostArgs Cost.CostTrace.
-From ApiFu Require Cost.CostArgsProofs.
+From ApiFu Require Cost.CostArgsProofs Cost.CostC04Usage Val.BridgeC04 Val.BridgeC04Proofs Vld.ValidatorModel Vld.ProofsTypeInfoValues.
 Import ListNotations.
 Open Scope string_scope.
 Open Scope Z_scope.
@@ -787,6 +787,39 @@ Definition field_facts (E : Values.env) (defs : list Values.vardef) (f : afield 
   && forallb (fun ad => CoerceSpec.default_ok E (snd ad)) (af_argdefs f)
   && CostArgsProofs.field_usage_ok ctxT E defs f.
 
+(** C04's per-node checks on the translation of a field selection ([CostC04.c04_node_silent]) *)
+(** validateVariables' visitor inside every argument value ([CostC04.c04_usage_silent]) *)
+Definition c04_usage_ok (E : Values.env) (defs : list Values.vardef) (f : afield ctxT) : bool :=
+  forallb (fun a : Values.name * Values.lit =>
+             match Values.aget (fst a) (af_argdefs f) with
+             | Some d =>
+                 CostC04Usage.nil_errs
+                   (ProofsTypeInfoValues.usage_errs true (BridgeC04.tr_env E) (CostC04Usage.ann_vardefs defs) false
+                      (Some (BridgeC04.tr_sty (Values.in_type d))) (CoerceModel.arg_loc_default true d) (BridgeC04.tr_lit (snd a)))
+             | None => false
+             end) (af_args f).
+
+Definition c04_node_ok (E : Values.env) (f : afield ctxT) : bool :=
+  match fst (ValidatorModel.args_node ValidatorModel.repaired ValidatorModel.id_order []
+               (BridgeC04.tr_args 0 (af_args f)) (BridgeC04.tr_argdefs (af_argdefs f)) (0%N, 0%N)) with
+  | [] => true
+  | _ => false
+  end
+  && forallb (fun a : Values.name * Values.lit =>
+                match Values.aget (fst a) (af_argdefs f) with
+                | Some d => BridgeC04.c04_accepts E (snd a) (Values.in_type d) true
+                | None => true
+                end) (af_args f).
+Definition c04_defaults_ok (E : Values.env) (defs : list Values.vardef) : bool :=
+  forallb (fun d => match Values.vd_default d with
+                    | Some l => CoerceModel.type_known E (Values.vd_type d) && BridgeC04.c04_accepts E l (Values.vd_type d) true
+                    | None => true
+                    end) defs.
+Definition c04_nodes_ok (E : Values.env) (defs : list Values.vardef) (frs : list (bytes * anode ctxT)) (body : anode ctxT) : bool :=
+  BridgeC04.bridgeable E && BridgeC04Proofs.no_float E && c04_defaults_ok E defs
+  && forallb (fun d => CoerceModel.type_known E (Values.vd_type d)) defs
+  && forallb (fun f => c04_node_ok E f && c04_usage_ok E defs f) (reachable_fields frs body).
+
 Definition request_facts (E : Values.env) (defs : list Values.vardef) (frs : list (bytes * anode ctxT)) (body : anode ctxT) : bool :=
   CoerceSpec.env_ok E
   && negb (CoerceModel.has_dup (map Values.vd_name defs))
@@ -858,20 +891,21 @@ Definition check (c : sexp) : sexp :=
               let obs_calls := match field1 "calls" l with Some (SL cs) => map_opt dec_call cs | _ => None end in
               let trees := (map (fun a => ao_body a) aops ++ map snd afrs)%list in
               let spec := spec_tree dc ops frs opname vars_err in
-              (* classification of defect 18 (repaired): the observation is exactly what the code before
-                 the repair computes, on a tree with a free field beneath an overflowed multiplier *)
-              let before := fst (validate_cost_trace ctxT E dt0 false fuel dc ctx0 aops afrs opname raw max) in
-              let before0 := fst (validate_cost_trace ctxT E dt0 false fuel dc ctx0 aops afrs opname raw (-1)) in
-              let is_defect18 :=
-                match spec, compare before before0 o with
-                | Some ts, None => zero_under_overflow ts
-                | _, _ => false
-                end in
               (* [std] > 0: the standard rules reject the document, which is then outside the property's
                  quantifier ("forall validated document"); ValidateDocument does not run the cost rule on
                  it, the harness applied the rule directly and only model = implementation is demanded *)
               match (match spec with Some ts => if std >? 0 then None else oracle ts max o | None => None end) with
               | Some v =>
+                  (* classification of defect 18 (repaired): the observation is exactly what the code before
+                     the repair computes, on a tree with a free field beneath an overflowed multiplier
+                     (only evaluated when the oracle failed) *)
+                  let before := fst (validate_cost_trace ctxT E dt0 false fuel dc ctx0 aops afrs opname raw max) in
+                  let before0 := fst (validate_cost_trace ctxT E dt0 false fuel dc ctx0 aops afrs opname raw (-1)) in
+                  let is_defect18 :=
+                    match spec, compare before before0 o with
+                    | Some ts, None => zero_under_overflow ts
+                    | _, _ => false
+                    end in
                   match v with
                   | SL (SSym t :: _ :: details) =>
                       if String.eqb t "oracle-fail" && is_defect18
@@ -892,6 +926,11 @@ Definition check (c : sexp) : sexp :=
                                              | None => false
                                              end
                       then v_mismatch "validated-document-violates-theorem-hypotheses" []
+                      else if (std =? 0) && match chosen_op ctxT aops opname with
+                                             | Some ao => negb (c04_nodes_ok E (ao_vardefs ao) afrs (ao_body ao))
+                                             | None => false
+                                             end
+                      then v_mismatch "validated-document-fails-c04-node-checks" []
                       else if match obs_calls, o with
                               | Some cs, Obs _ _ _ _ => negb (calls_match (snd mt0) cs)
                               | _, _ => false
@@ -905,7 +944,15 @@ Definition check (c : sexp) : sexp :=
                               ++ (if existsb (sexp_exists (is_field_with is_gen)) body then ["list-or-object-argument"] else [])
                               ++ (match xvars with [] => [] | _ => ["list-or-object-variable-value-given"] end)
                               ++ (if (std =? 0) && match chosen_op ctxT aops opname with Some _ => true | None => false end
-                                  then ["theorem-hypotheses-hold"] else [])
+                                  then ["theorem-hypotheses-hold"; "c04-node-checks-silent"] else [])
+                              ++ (match field1 "varshape" l with
+                                  | Some (SSym sh) =>
+                                      if String.eqb sh "map" then []
+                                      else [String.append "variables-" sh] ++
+                                           (if existsb (fun x => match raw_defs x with [] => false | _ => true end) raws
+                                            then ["no-variable-values-but-variables-declared"] else [])
+                                  | _ => []
+                                  end)
                               ++ (match field1 "timed" l with
                                   | Some b => match as_bool b with Some true => ["time-based-connection"] | _ => [] end
                                   | None => []
